@@ -80,7 +80,23 @@ type lockAccess struct {
 	File                string
 }
 
+// lockEdge: a mutex acquired while another (or the same) one may be held.
+type lockEdge struct {
+	From, To string
+	Func     string
+	Line     int
+}
+
+// lockWait: a blocking wait (WaitGroup, callback of the application) reached while a mutex may be held.
+type lockWait struct {
+	Kind, What, Held, Func string
+	Line                   int
+}
+
 type lockAnalysis struct {
+	noEdges, noAccess bool // walking a deferred literal at its defer statement (accesses only) / at a return (edges only)
+	edges    []lockEdge
+	waits    []lockWait
 	p        *pkgInfo
 	fields   map[string]map[string]string // struct -> field -> type text
 	entry    map[string]lockState         // function -> locks held at entry
@@ -112,8 +128,14 @@ func typeText(e ast.Expr) string {
 	return "?"
 }
 
+// ifaceImpl: the package's own implementation of an interface-typed field (calls through the field reach its methods).
+var ifaceImpl = map[string]string{"ConnectionMonitor": "natsConnectionMonitor"}
+
 func (la *lockAnalysis) structOfType(t string) string {
 	t = strings.TrimPrefix(t, "*")
+	if impl, ok := ifaceImpl[t]; ok {
+		t = impl
+	}
 	for _, s := range lockStructs {
 		if t == s {
 			return s
@@ -144,6 +166,7 @@ type walker struct {
 	fn   string
 	env  map[string]string
 	inGo bool
+	defers []*ast.FuncLit // deferred literals seen so far (may mode: re-walked at every exit for the lock order)
 }
 
 func terminates(stmts []ast.Stmt) bool {
@@ -200,7 +223,7 @@ func (w *walker) access(e *ast.SelectorExpr, write bool, st lockState) {
 	if _, ok := w.la.fields[s][e.Sel.Name]; !ok {
 		return // a method
 	}
-	if !w.la.record {
+	if !w.la.record || w.la.noAccess {
 		return
 	}
 	pos := w.la.p.fset.Position(e.Pos())
@@ -228,7 +251,7 @@ func (w *walker) expr(e ast.Expr, st lockState) {
 	case *ast.FuncLit:
 		// a function value created here and run by somebody else, later: no lock can be assumed
 		sub := &walker{la: w.la, fn: w.fn, env: w.env, inGo: true}
-		sub.block(x.Body.List, lockState{})
+		sub.body(x.Body.List, lockState{})
 	case *ast.UnaryExpr:
 		if x.Op == token.AND {
 			if sel, ok := x.X.(*ast.SelectorExpr); ok {
@@ -236,6 +259,9 @@ func (w *walker) expr(e ast.Expr, st lockState) {
 				w.expr(sel.X, st)
 				return
 			}
+		}
+		if x.Op == token.ARROW {
+			w.noteWait("chan", squash(w.la.p.src(x.X)), st, x.Pos())
 		}
 		w.expr(x.X, st)
 	case *ast.BinaryExpr:
@@ -277,9 +303,35 @@ func (w *walker) call(c *ast.CallExpr, st lockState, deferred bool) {
 		if lvl < 0 {
 			delete(st, s)
 		} else {
+			if mayMode && w.la.record && !w.la.noEdges {
+				for _, t := range lockStructs {
+					if st[t] > 0 {
+						w.la.edges = append(w.la.edges, lockEdge{t, s, w.fn, w.la.p.fset.Position(c.Pos()).Line})
+					}
+				}
+			}
 			st[s] = lvl
 		}
 		return
+	}
+	if sel, ok := c.Fun.(*ast.SelectorExpr); ok {
+		if inner, ok := sel.X.(*ast.SelectorExpr); ok && inner.Sel.Name == "kv" && w.la.typeOf(inner.X, w.env) != "" {
+			w.noteWait("store", sel.Sel.Name, st, c.Pos())
+		}
+		if id, ok := sel.X.(*ast.Ident); ok && id.Name == "time" && sel.Sel.Name == "Sleep" {
+			w.noteWait("sleep", "", st, c.Pos())
+		}
+	}
+	if mayMode && w.la.record && !w.la.noEdges {
+		if sel, ok := c.Fun.(*ast.SelectorExpr); ok && sel.Sel.Name == "Wait" {
+			if inner, ok := sel.X.(*ast.SelectorExpr); ok && inner.Sel.Name == "wg" {
+				for _, t := range lockStructs {
+					if st[t] > 0 {
+						w.la.waits = append(w.la.waits, lockWait{"wg.Wait", typeText(inner), t, w.fn, w.la.p.fset.Position(c.Pos()).Line})
+					}
+				}
+			}
+		}
 	}
 	for _, a := range c.Args {
 		// a method value passed as an argument escapes: it can be called from anywhere
@@ -297,12 +349,19 @@ func (w *walker) call(c *ast.CallExpr, st lockState, deferred bool) {
 	case *ast.FuncLit:
 		// immediately invoked: runs here, with what is held here
 		sub := &walker{la: w.la, fn: w.fn, env: w.env, inGo: w.inGo}
-		sub.block(f.Body.List, st.clone())
+		sub.body(f.Body.List, st.clone())
 	case *ast.SelectorExpr:
 		if s := w.la.typeOf(f.X, w.env); s != "" {
 			if _, isField := w.la.fields[s][f.Sel.Name]; isField {
 				// calling a function-typed field (a callback): a read of the field
 				w.access(f, false, st)
+				if mayMode && w.la.record && !w.la.noEdges && w.la.fields[s][f.Sel.Name] == "func" {
+					for _, t := range lockStructs {
+						if st[t] > 0 {
+							w.la.waits = append(w.la.waits, lockWait{"callback", s + "." + f.Sel.Name, t, w.fn, w.la.p.fset.Position(c.Pos()).Line})
+						}
+					}
+				}
 			} else {
 				w.la.noteCall(s+"."+f.Sel.Name, st)
 			}
@@ -312,6 +371,18 @@ func (w *walker) call(c *ast.CallExpr, st lockState, deferred bool) {
 		w.expr(f.X, st)
 	default:
 		w.expr(c.Fun, st)
+	}
+}
+
+// noteWait records a blocking wait reached while a tracked mutex may be held (may mode only).
+func (w *walker) noteWait(kind, what string, st lockState, pos token.Pos) {
+	if !(mayMode && w.la.record && !w.la.noEdges) {
+		return
+	}
+	for _, t := range lockStructs {
+		if st[t] > 0 {
+			w.la.waits = append(w.la.waits, lockWait{kind, what, t, w.fn, w.la.p.fset.Position(pos).Line})
+		}
 	}
 }
 
@@ -330,6 +401,30 @@ func (w *walker) assignTarget(e ast.Expr, st lockState) {
 	case *ast.StarExpr:
 		w.expr(x.X, st)
 	}
+}
+
+// body walks a whole function (or literal) body: the statements, then - when control can fall out of the end - the
+// deferred literals.
+func (w *walker) body(stmts []ast.Stmt, st lockState) {
+	out, term := w.block(stmts, st)
+	if !term {
+		w.runDefers(out)
+	}
+}
+
+// runDefers (may mode): the deferred literals run at this exit, with what is held here (a deferred Unlock registered
+// earlier counts as still held: over-approximation). Only lock-order edges and waits are recorded.
+func (w *walker) runDefers(st lockState) {
+	if !mayMode || len(w.defers) == 0 {
+		return
+	}
+	saved := w.la.noAccess
+	w.la.noAccess = true
+	for i := len(w.defers) - 1; i >= 0; i-- {
+		sub := &walker{la: w.la, fn: w.fn, env: w.env, inGo: w.inGo}
+		sub.body(w.defers[i].Body.List, st.clone())
+	}
+	w.la.noAccess = saved
 }
 
 // block walks a statement list; it returns the state after it and whether control cannot fall out of it.
@@ -381,6 +476,7 @@ func (w *walker) stmt(s ast.Stmt, st lockState) lockState {
 		for _, r := range x.Results {
 			w.expr(r, st)
 		}
+		w.runDefers(st)
 	case *ast.GoStmt:
 		// a new goroutine: holds nothing
 		if f, ok := x.Call.Fun.(*ast.FuncLit); ok {
@@ -388,7 +484,7 @@ func (w *walker) stmt(s ast.Stmt, st lockState) lockState {
 				w.expr(a, st)
 			}
 			sub := &walker{la: w.la, fn: w.fn, env: w.env, inGo: true}
-			sub.block(f.Body.List, lockState{})
+			sub.body(f.Body.List, lockState{})
 		} else {
 			sub := &walker{la: w.la, fn: w.fn, env: w.env, inGo: true}
 			sub.call(x.Call, lockState{}, false)
@@ -399,7 +495,12 @@ func (w *walker) stmt(s ast.Stmt, st lockState) lockState {
 			// released explicitly is not.  Without tracking which is which, assume nothing.
 			sub := &walker{la: w.la, fn: w.fn, env: w.env, inGo: w.inGo}
 			if mayMode {
-				sub.block(f.Body.List, st.clone()) // whatever is held here may still be held at return
+				// accesses: whatever is held here may still be held at return; lock order: re-walked at every exit
+				w.defers = append(w.defers, f)
+				savedNE := w.la.noEdges
+				w.la.noEdges = true
+				sub.block(f.Body.List, st.clone())
+				w.la.noEdges = savedNE
 			} else {
 				sub.block(f.Body.List, lockState{})
 			}
@@ -459,6 +560,15 @@ func (w *walker) stmt(s ast.Stmt, st lockState) lockState {
 	case *ast.TypeSwitchStmt:
 		st = w.clauses(x.Body.List, st)
 	case *ast.SelectStmt:
+		blocking := true
+		for _, c := range x.Body.List {
+			if cc, ok := c.(*ast.CommClause); ok && cc.Comm == nil {
+				blocking = false // a default clause: the select does not wait
+			}
+		}
+		if blocking {
+			w.noteWait("select", "", st, x.Pos())
+		}
 		st = w.clauses(x.Body.List, st)
 	case *ast.LabeledStmt:
 		st = w.stmt(x.Stmt, st)
@@ -570,6 +680,8 @@ func genLocks(p *pkgInfo, out string) {
 	run := func(record bool) {
 		la.record = record
 		la.accesses = nil
+		la.edges = nil
+		la.waits = nil
 		la.callSeen = map[string][]lockState{}
 		for _, m := range methods {
 			fd := p.funcs[m]
@@ -578,7 +690,7 @@ func genLocks(p *pkgInfo, out string) {
 				env[fd.Recv.List[0].Names[0].Name] = la.structOfType(recvName(fd.Recv.List[0].Type))
 			}
 			w := &walker{la: la, fn: m, env: env}
-			w.block(fd.Body.List, la.entry[m].clone())
+			w.body(fd.Body.List, la.entry[m].clone())
 		}
 		// plain functions (constructors, helpers) can call methods too: with nothing held
 		for name, fd := range p.funcs {
@@ -612,7 +724,7 @@ func genLocks(p *pkgInfo, out string) {
 			saved := la.record
 			la.record = false // the object is not shared yet: accesses in constructors are not recorded
 			w := &walker{la: la, fn: name, env: env}
-			w.block(fd.Body.List, lockState{})
+			w.body(fd.Body.List, lockState{})
 			la.record = saved
 		}
 	}
@@ -658,10 +770,7 @@ func genLocks(p *pkgInfo, out string) {
 		run(false)
 		changed := false
 		for _, m := range methods {
-			short := m[strings.Index(m, ".")+1:]
-			if isExported(short) {
-				continue
-			}
+			// (exported methods too: besides the application, holding nothing, the package itself calls some of them)
 			ns := lockState{}
 			for _, st := range la.callSeen[m] {
 				ns = join(ns, st)
@@ -680,6 +789,7 @@ func genLocks(p *pkgInfo, out string) {
 	}
 	run(true)
 	may := la.accesses
+	mayEdges, mayWaits := la.edges, la.waits
 	mayMode = false
 	if len(may) != len(must) {
 		fail("lock analysis: the two passes saw different accesses (%d vs %d)", len(must), len(may))
@@ -731,6 +841,39 @@ func genLocks(p *pkgInfo, out string) {
 			}
 		}
 		rows = append(rows, fmt.Sprintf("  (%s, [%s])", leanStr(m), strings.Join(hs, ", ")))
+	}
+	b.WriteString(strings.Join(rows, ",\n"))
+	b.WriteString("]\n\n")
+	b.WriteString("/-- Lock order: (held, acquired, function, line) for every mutex acquisition reached while a mutex of a tracked struct may be held (union over paths and call sites; goroutines and stored function values start with nothing held). -/\n")
+	b.WriteString("def lockOrder : List (String × String × String × Nat) := [\n")
+	rows = nil
+	sort.SliceStable(mayEdges, func(i, j int) bool {
+		a, c := mayEdges[i], mayEdges[j]
+		if a.Func != c.Func {
+			return a.Func < c.Func
+		}
+		return a.Line < c.Line
+	})
+	seenE := map[string]bool{}
+	for _, e := range mayEdges {
+		r := fmt.Sprintf("  (%s, %s, %s, %d)", leanStr(e.From), leanStr(e.To), leanStr(e.Func), e.Line)
+		if !seenE[r] {
+			seenE[r] = true
+			rows = append(rows, r)
+		}
+	}
+	b.WriteString(strings.Join(rows, ",\n"))
+	b.WriteString("]\n\n")
+	b.WriteString("/-- Blocking waits reached while a mutex may be held: (kind, what, mutex held, function, line); kind wg.Wait = waiting for background goroutines, callback = calling a function-typed field (application callback). -/\n")
+	b.WriteString("def lockWaits : List (String × String × String × String × Nat) := [\n")
+	rows = nil
+	seenE = map[string]bool{}
+	for _, e := range mayWaits {
+		r := fmt.Sprintf("  (%s, %s, %s, %s, %d)", leanStr(e.Kind), leanStr(e.What), leanStr(e.Held), leanStr(e.Func), e.Line)
+		if !seenE[r] {
+			seenE[r] = true
+			rows = append(rows, r)
+		}
 	}
 	b.WriteString(strings.Join(rows, ",\n"))
 	b.WriteString("]\n\n")
